@@ -123,7 +123,8 @@ Fixpoint fallback (u : string) (nonconstant_operand : bool) (cs : list (string *
   | [] => if au_else_notimplemented then DNotImplemented else DUnknown
   | (t, caster) :: cs' =>
       if mem u (table_of t) then
-        if String.eqb caster "asarray" then DArray
+        (* casters that only unwrap tensors (asarray before /repo 's comparison fix, _as_array_operand since): the NumPy ufunc then returns an array *)
+        if String.eqb caster "asarray" || String.eqb caster "_as_array_operand" then DArray
         else if String.eqb caster "_as_constant_array" then
           (if nonconstant_operand then (if const_caster_raises_on_nonconstant && au_constonly_becomes_valueerror then DRaise else DUnknown) else DArray)
         else DUnknown
